@@ -3,19 +3,19 @@
 // run: ./check C19 --replay replays/C19/tensor.c19_ctor_reject_len.rs
 /// Test generated for harness `tensor::c19_ctor_reject_len` 
 ///
-/// Check for `assertion`: "assertion failed: dims.iter().product::<usize>() == data.len()"
+/// Check for `assertion`: "VERIF-REACHED: wrong data length accepted"
 
 #[test]
-fn kani_concrete_playback_c19_ctor_reject_len_6514085360282584389() {
+fn kani_concrete_playback_c19_ctor_reject_len_16997119064516532433() {
     let concrete_vals: Vec<Vec<u8>> = vec![
+        // 2ul
+        vec![2, 0, 0, 0, 0, 0, 0, 0],
+        // 1ul
+        vec![1, 0, 0, 0, 0, 0, 0, 0],
         // 3ul
         vec![3, 0, 0, 0, 0, 0, 0, 0],
-        // 3ul
-        vec![3, 0, 0, 0, 0, 0, 0, 0],
-        // 5ul
-        vec![5, 0, 0, 0, 0, 0, 0, 0],
-        // 0
-        vec![0],
+        // 1
+        vec![1],
     ];
     kani::concrete_playback_run(concrete_vals, c19_ctor_reject_len);
 }
